@@ -204,7 +204,9 @@ impl Iterator for HeaderIter {
 impl TryFrom<Vec<HeaderField>> for Header {
     type Error = HeaderError;
     fn try_from(headers: Vec<HeaderField>) -> Result<Self, Self::Error> {
-        let mut fields = HeaderMap::with_capacity(headers.len());
+        // `HeaderMap::with_capacity` panics when the peer sends more fields than a `HeaderMap` can hold
+        let mut fields = HeaderMap::try_with_capacity(headers.len())
+            .map_err(|e| HeaderError::InvalidRequest(e.into()))?;
         let mut pseudo = Pseudo::default();
 
         for field in headers.into_iter() {
